@@ -6,6 +6,7 @@ from gevent.event import Event
 class MiniRedis:
     def __init__(self):
         self.db={}; self.list_ev=Event(); self.log=[]
+        self.delay=None   # optional callable(command_args) -> seconds slept before the reply is sent (models network latency)
         self.srv=StreamServer(('127.0.0.1',0),self.handle); self.srv.start(); self.port=self.srv.server_port
     def read_cmd(self,f):
         line=f.readline()
@@ -49,6 +50,7 @@ class MiniRedis:
             k=0
             for x in c[1:]: k+= db.pop(x,None) is not None
             return k
+        if n==b'LLEN': typ(c[1],list); return len(db.get(c[1],[]))
         if n==b'RPUSH':
             typ(c[1],list); l=db.setdefault(c[1],[]); l.extend(c[2:]); self.list_ev.set(); return len(l)
         raise Exception("ERR unknown command '%s'"%n.decode())
@@ -82,4 +84,7 @@ class MiniRedis:
             else:
                 try: out=self.execute(c)
                 except Exception as e: out=e
+            if self.delay is not None:
+                d=self.delay(c)
+                if d: gevent.sleep(d)
             f.write(self.enc(out)); f.flush()
